@@ -812,6 +812,7 @@ var c18AEs = []string{
 	"gzip", "gzip", "gzip", "gzip, deflate, br", "gzip, deflate", "br, gzip", "zstd, gzip", "gzip, zstd", "zstd, br, gzip",
 	"br", "zstd", "deflate", "identity", "*", "", "GZIP", "x-gzip", "gzip;q=1.0", "br;q=1.0, gzip;q=0.8", "gzip ,br", " gzip",
 	"gzip,br,zstd", "zstd,gzip", "br;q=0.9, zstd;q=0.8", "deflate, gzip;q=0.5", "identity;q=0, gzip",
+	"gzip;q=0, gzip", "gzip;q=00", "gzip;q=0.001", "gzip ; q = 0", "*;q=0, gzip", "gzip;q=", "br,\tgzip",
 }
 var c18BadAEs = []string{"gzip;q=0", "gzip;q=0, identity", "gzip; q=0.0, br", "br, gzip;q=0.000", "notgzip", "gzipped, br", "x-gzip;q=0"}
 
@@ -1060,7 +1061,8 @@ func c18Gen(r *Rand, tier string) []interface{} {
 	pickAE := func(in *c18In, hazard string) {
 		switch {
 		case hazard == "ae:gzip-q0":
-			in.AE = r.Pick([]string{"gzip;q=0", "gzip;q=0, identity", "gzip; q=0.0, br", "br, gzip;q=0.000", "x-gzip;q=0"})
+			in.AE = r.Pick([]string{"gzip;q=0", "gzip;q=0, identity", "gzip; q=0.0, br", "br, gzip;q=0.000", "x-gzip;q=0",
+				"gzip;Q=0", "gzip;q=0.", "x-gzip ;\tq=0.00", "gzip;level=9;q=0", "br;q=1, gzip;q=0;x=1"})
 		case hazard == "ae:gzip-substring":
 			in.AE = r.Pick([]string{"notgzip", "gzipped, br", "xgzipx"})
 		case hazard == "already-encoded:zstd":
